@@ -341,12 +341,27 @@ def check_terminal_transfer(eng, res, rule="R-TERMINAL-TRANSFER"):
     from ..util import with_nested
 
     found = {}
-    for f in with_nested(gen):
+    sto = eng.prog.cls("Stochastic")
+    cands = []
+    for fs in sto.methods.values():
+        for m in fs:
+            if m.name != "__init__":
+                cands += with_nested(m)
+    for f in cands:
+        fl_ = eng.flow(f)
         for n in own_nodes(f.node):
-            if isinstance(n, ast.Assign) and len(n.targets) == 1 and isinstance(n.targets[0], ast.Attribute):
+            if isinstance(n, ast.Assign) and len(n.targets) == 1 and isinstance(n.targets[0], ast.Attribute) and fl_.cfg.has(n):
                 t = n.targets[0]
-                if t.attr in ("transitions", "weight") and src(n.value) == f"self.left_terminal.{t.attr}":
-                    found[t.attr] = (f, n, src(t.value))
+                if t.attr not in ("transitions", "weight"):
+                    continue
+                at_ = fl_.cfg.node_of(n)
+                v = src(fl_.expand_ssa(n.value, at_))
+                if v == f"self.left_terminal.{t.attr}":
+                    tgt = src(fl_.expand_ssa(t.value, at_))
+                    tgt = tgt.split("#")[0] if "#" in tgt and "." not in tgt.split("#", 1)[1] else tgt
+                    import re as _re2
+                    tgt = _re2.sub(r"#[0-9_]+", "", tgt)
+                    found[t.attr] = (f, n, tgt)
     for a in ("weight", "transitions"):
         ok = a in found
         fi = found[a][0] if ok else gen
